@@ -439,6 +439,9 @@ func main() {
 				// processes: every helper that recorded its pid must be gone
 				pfs, _ := filepath.Glob(filepath.Join(spec.PidDir, "*"))
 				for _, pf := range pfs {
+					if strings.Contains(filepath.Base(pf), ".tmp") {
+						continue // a marker file a helper was stopped while writing
+					}
 					if strings.HasSuffix(pf, ".exit") {
 						// a slow-to-die helper recorded when it was about to exit: that must be before its run ended
 						b, _ := os.ReadFile(pf)
